@@ -1,9 +1,12 @@
 (* C10 — Construction accepts exactly the valid pattern collections and never panics.
-   Proved here: the adequacy of the specification the correspondence check uses as its oracle, and
-   the error arms of the model that do not depend on the trie invariant.  The duplicate arm and
-   the absence of panics (which need the trie/helper invariants) are decided by the correspondence
-   check only; they are listed as missing in DESIGN.md. *)
-From DV Require Import Model.Base Model.Nfa Model.BwBuild Model.Utf8 Model.CwBuild Model.Spec Proofs.BuildProps.
+   Proved here: the adequacy of the specification the correspondence check uses as its oracle; for
+   EVERY pattern sequence (total length below 2^30 labels) and both builders: an invalid collection
+   is answered with exactly the error kind of its first offending entry (empty collection, empty
+   pattern, repeat -- including repeats dropped by leftmost-first), and whatever construction
+   accepts is valid (trie invariant, Proofs/TrieInv.v).  NOT proved: that a valid collection is
+   accepted without a panic by the later phases of the model (fail links, double-array layout:
+   helper invariant); that direction is decided by the correspondence check. *)
+From DV Require Import Model.Base Model.Nfa Model.BwBuild Model.Utf8 Model.CwBuild Model.Spec Proofs.BuildProps Proofs.TrieInv Proofs.BuildTrie.
 Local Open Scope N_scope.
 
 (* the oracle says "must succeed" exactly for non-empty collections without an empty pattern and
@@ -54,6 +57,50 @@ Theorem conversion_failure_reported_first :
     enumerate_conv V conv 0 ps = None -> bw_build V conv k nfb ps = Err InvalidConversion.
 Proof. intros V conv k nfb ps. exact (bw_build_conversion_error V conv k nfb ps). Qed.
 Print Assumptions conversion_failure_reported_first.
+
+(* model, EVERY pattern sequence: construction answers an invalid collection with the error kind the
+   specification names (the first offending entry in input order decides), under every match kind
+   and setting.  [total_len] is the summed pattern length in labels (bytes / characters). *)
+Theorem bw_invalid_collection_rejected :
+  forall (V : Type) k nfb (pvs : list (list N * V)) e, nfb <> 0 -> 4 * total_len V pvs <= U32_MAX - 1 ->
+    spec_build_error (map fst pvs) = Some e -> bw_build_with_values V k nfb pvs = Err e.
+Proof. exact bw_build_error_lemma. Qed.
+Print Assumptions bw_invalid_collection_rejected.
+
+Theorem cw_invalid_collection_rejected :
+  forall (V : Type) k nfb (pvs : list (list N * V)) e, nfb <> 0 -> 4 * total_len V pvs <= U32_MAX - 1 ->
+    spec_build_error (map fst pvs) = Some e -> cw_build_with_values V k nfb pvs = Err e.
+Proof. exact cw_build_error_lemma. Qed.
+Print Assumptions cw_invalid_collection_rejected.
+
+(* and conversely whatever construction accepts is a valid collection *)
+Theorem accepted_collections_are_valid :
+  forall (V : Type) k nfb (pvs : list (list N * V)), 4 * total_len V pvs <= U32_MAX - 1 ->
+    (forall A, bw_build_with_values V k nfb pvs = Ok A -> spec_build_error (map fst pvs) = None)
+    /\ (forall A, cw_build_with_values V k nfb pvs = Ok A -> spec_build_error (map fst pvs) = None).
+Proof.
+  intros V k nfb pvs H. split; intros A HA.
+  - exact (proj1 (bw_build_ok_lemma V k nfb pvs A H HA)).
+  - exact (proj1 (cw_build_ok_lemma V k nfb pvs A H HA)).
+Qed.
+Print Assumptions accepted_collections_are_valid.
+
+(* the pattern loop itself never panics and accepts every valid collection: it ends in a trie that
+   satisfies the invariant for the registered patterns *)
+Theorem pattern_loop_accepts_valid_collections :
+  forall (V : Type) k (pvs : list (list N * V)), 4 * total_len V pvs <= U32_MAX - 1 ->
+    spec_build_error (map fst pvs) = None ->
+    exists n paths, add_all V (fun _ => 1) (nfa_new V k) pvs = Ok n
+                    /\ TI V (fun _ => 1) n (regd V k pvs) [] paths /\ n_len n <> 0.
+Proof.
+  intros V k pvs Hsz Hs. rewrite add_all_adds.
+  pose proof (adds_spec V (fun _ => 1) one_pos one_le4 k pvs Hsz) as A.
+  destruct pvs as [|pv r]; [discriminate|]. unfold spec_build_error in Hs. cbn [map] in Hs, A. rewrite Hs in A.
+  destruct A as (n & paths & A1 & A2 & _ & A4 & _). exists n, paths. split; [exact A1|]. split; [exact A2|].
+  rewrite A4. pose proof (regd_nonempty V k (pv :: r) ltac:(discriminate)) as Hne.
+  destruct (regd V k (pv :: r)); [congruence|]. cbn [length]. lia.
+Qed.
+Print Assumptions pattern_loop_accepts_valid_collections.
 
 (* Non-vacuity and the repaired finding F2: repeats shadowed under leftmost-first are rejected. *)
 Example c10_observed :
